@@ -838,3 +838,50 @@ package control
 //@   modifies *
 //@   at call BatchRemoveDomainRouting#1 assert a1 == cache
 //@   ensures calls("BatchRemoveDomainRouting") == 1
+
+// C13 (shared UDP connection-state tracker): every acquire of an existing entry counts one more holder and
+// hands out that entry's tracker; a release by a holder counts one less and drops the entry at zero - so a
+// tracker is never torn down while another control plane generation still uses it.
+//@ func newUdpConnStateTracker
+//@   ensures result != nil && fresh(result) && result.entries != nil && len(result.entries) == 0
+//@ func acquireSharedUdpConnStateTracker
+//@   nonilcheck
+//@   dyncalls noeffect
+//@   modifies *
+//@   let reg() = sharedUdpConnStateTrackerRegistry.entries
+//@   requires sharedUdpConnStateTrackerRegistry.entries != nil   // initialised with the package, never reassigned
+//@   ensures bpf != nil && !old(has(reg(), bpf) && reg()[bpf] != nil) ==> has(reg(), bpf) && reg()[bpf] != nil && reg()[bpf].refs == 1 && result == reg()[bpf].tracker
+//@   ensures bpf != nil && old(has(reg(), bpf) && reg()[bpf] != nil && reg()[bpf].refs < 1000000000) ==> reg()[bpf] == old(reg()[bpf]) && reg()[bpf].refs == old(reg()[bpf].refs) + 1 && result == old(reg()[bpf].tracker)
+//@ func releaseSharedUdpConnStateTracker
+//@   nonilcheck
+//@   dyncalls noeffect
+//@   modifies *
+//@   let reg() = sharedUdpConnStateTrackerRegistry.entries
+//@   let held() = bpf != nil && tracker != nil && old(has(reg(), bpf) && reg()[bpf] != nil && reg()[bpf].tracker == tracker)
+//@   ensures held() && old(reg()[bpf].refs) > 1 ==> has(reg(), bpf) && reg()[bpf] == old(reg()[bpf]) && reg()[bpf].refs == old(reg()[bpf].refs) - 1
+//@   ensures held() && old(reg()[bpf].refs) <= 1 && old(reg()[bpf].refs) > -1000000000 ==> !has(reg(), bpf)
+//@   ensures !held() ==> (has(reg(), bpf) <==> old(has(reg(), bpf)))
+
+// C13 (an endpoint removes only itself): on read-loop exit the pool slot is deleted only while it still holds
+// THIS endpoint - a successor already stored under the same key is left alone.
+//@ func (*UdpEndpoint).selfRemoveFromPool
+//@   anchorsonly
+//@   nonilcheck
+//@   dyncalls noeffect
+//@   modifies *
+//@   at call shardFor#1 assert a1 == ue.poolKey
+//@   at call builtin:delete#1 assert a0 == shard.pool && a1 == ue.poolKey && has(shard.pool, ue.poolKey) && shard.pool[ue.poolKey] == ue
+
+// C13 (a task queue is retired only when it is provably idle): a wake-up ends the convoy only while the pool is
+// shutting down (negative reference count); an idle queue with zero references keeps serving until the
+// aging timer retires it through the CAS below.
+//@ func (*UdpTaskQueue).convoy
+//@   anchorsonly
+//@   nonilcheck
+//@   dyncalls noeffect
+//@   modifies *
+//@   ghostfn woken() int
+//@   at call Load#1 assume-after result == woken()
+//@   at return 1 before-defers assert woken() < 0
+//@   at call CompareAndSwap#1 assert a1 == 0 && a2 < 0
+//@   at call tryDeleteQueue#1 assert a1 == q.key && a2 == q
